@@ -10,6 +10,7 @@ import DDProofs.MddConv
 import DDProofs.MddGcReach
 import DDProofs.MddFuel
 import DDProofs.MddConvFull
+import DDProofs.MddTotal
 import DDProps.C07
 import DDProofs.Inv
 namespace DD
@@ -158,30 +159,35 @@ def bddToMdd_statement : Prop :=
     ReorderInv ext mb → DvarsOK mb.tbl dvars →
     bddToMdd dvars lev mb = (.ok out, mb') → B2MOK ext dvars mb out mb'
 
-/-- C15, conversion part, what is proved: the full statement for managers in which dynamic
-reordering is not enabled (`_last_len is None`, the default; the specification of `cofactor`,
-C04, is proved under that hypothesis).  Built from `collectGarbage_spec` (C06),
-`sortToOrder_exact` (C07: `reorder(bdd, order)` reaches exactly the requested order and keeps
-every held reference's function of the names), `cofactor_spec` (C04), canonicity ("a node depends
-on its own level": the cofactor w.r.t. all bits of a zone lies in a later zone), and the MDD side
+/-- C15, conversion part: the full statement, for ANY setting of dynamic reordering.  Built from
+`collectGarbage_spec` (C06), `sortToOrder_exact` (C07: `reorder(bdd, order)` reaches exactly the
+requested order and keeps every held reference's function of the names), the path-following
+behaviour of `cofactor` when every level of a zone is assigned (`cofactor_path`: for any
+`_last_len` / reordering context it creates nothing, requests no reordering and leaves the
+manager as it was — so the zones cannot be disturbed mid-loop), canonicity ("a node depends on its
+own level": the cofactor w.r.t. all bits of a zone lies in a later zone), and the MDD side
 (`find_or_add` specification). -/
+theorem C15_bddToMdd : bddToMdd_statement :=
+  fun ext mb dvars lev out mb' h hd hr => bddToMdd_spec ext mb h dvars hd lev out mb' hr
+
+/-- (name kept from the previous round) -/
 theorem C15_bddToMdd_partial_off (ext : Nat → Nat) (mb : Mgr) (h : ReorderInv ext mb)
-    (hoff : mb.lastLen = none) (dvars : List MVar) (hd : DvarsOK mb.tbl dvars)
+    (dvars : List MVar) (hd : DvarsOK mb.tbl dvars)
     (lev : Option (List Nat)) (out : B2MOut) (mb' : Mgr)
     (hr : bddToMdd dvars lev mb = (.ok out, mb')) : B2MOK ext dvars mb out mb' :=
-  bddToMdd_spec ext mb h hoff dvars hd lev out mb' hr
+  bddToMdd_spec ext mb h dvars hd lev out mb' hr
 
 /-- the same, spelled out for one held reference `s` (either sign): it has an image, and
 `flip(umap[|s|], s)` evaluates on every valid integer assignment to what the BDD reference — as
 it was BEFORE the call, by variable names — evaluates to on the encoded bits -/
 theorem C15_bddToMdd_held (ext : Nat → Nat) (mb : Mgr) (h : ReorderInv ext mb)
-    (hoff : mb.lastLen = none) (dvars : List MVar) (hd : DvarsOK mb.tbl dvars)
+    (dvars : List MVar) (hd : DvarsOK mb.tbl dvars)
     (lev : Option (List Nat)) (out : B2MOut) (mb' : Mgr)
     (hr : bddToMdd dvars lev mb = (.ok out, mb')) (s : Int) (hs : 0 < ext s.natAbs) :
     ∃ r, out.umap.lookup s.natAbs = some r ∧ out.mdd.tbl.Mem r ∧
       ∀ α, MValid out.mdd.tbl α →
         denM out.mdd.tbl (flip r s) α = denN mb.tbl s (bitsOfInts dvars α) := by
-  have B := bddToMdd_spec ext mb h hoff dvars hd lev out mb' hr
+  have B := bddToMdd_spec ext mb h dvars hd lev out mb' hr
   obtain ⟨r, hr'⟩ := Option.isSome_iff_exists.mp (B.mapped.2 s.natAbs hs)
   obtain ⟨hmu, hmr, hden⟩ := B.umap s.natAbs r hr'
   refine ⟨r, hr', hmr, ?_⟩
@@ -203,6 +209,72 @@ theorem C15_bddToMdd_held (ext : Nat → Nat) (mb : Mgr) (h : ReorderInv ext mb)
   · have hsu : s = ((s.natAbs : Nat) : Int) := by omega
     rw [hsu]
     exact hsame _
+
+/-! #### `bdd_to_mdd` returns normally -/
+
+/-- C15, conversion, TOTALITY: for a manager satisfying the reordering invariant whose `_pred` keys
+are triples (`KeysShaped` — what is lost by modelling tuples as lists; true of every manager the
+model can build) and a complete description `DvarsFull` of the integer variables (levels
+`0..n-1`, bit lists partitioning the declared variables, distinct names, at least one bit per
+variable — the code reads `bits[0]` —, `len = 2 ** len(bitnames)` — the code's `find_or_add`
+checks it), for ANY setting of dynamic reordering and ANY number of variables, with the default
+iteration orders: `bdd_to_mdd(bdd, dvars)` returns normally and `B2MOK` holds.  None of the
+assertions, dictionary lookups, `min()` of an empty set, `bits[0]`, `assert_consistent()`,
+`cofactor`, `umap[...]`, `find_or_add` argument checks can fail. -/
+theorem C15_bddToMdd_total (ext : Nat → Nat) (mb : Mgr) (h : ReorderInv ext mb)
+    (hks : KeysShaped mb) (hs : mb.sched = []) (dvars : List MVar) (hd : DvarsFull mb.tbl dvars) :
+    ∃ out mb', bddToMdd dvars none mb = (.ok out, mb') ∧ B2MOK ext dvars mb out mb' :=
+  bddToMdd_total ext mb h hks hs dvars hd
+
+/-- the same for every recorded schedule of swaps and of `bdd.levels()`: the call returns normally
+with `B2MOK`; the only alternative is the model's own report `MODEL-SCHEDULE-MISMATCH` (a recorded
+order that is not a permutation of the level sets — not a behaviour of the code) -/
+theorem C15_bddToMdd_anySchedule (ext : Nat → Nat) (mb : Mgr) (h : ReorderInv ext mb)
+    (hks : KeysShaped mb) (dvars : List MVar) (hd : DvarsFull mb.tbl dvars)
+    (lev : Option (List Nat)) :
+    OkOrSched (fun out mb' => B2MOK ext dvars mb out mb') (bddToMdd dvars lev mb) :=
+  bddToMdd_okOrSched ext mb h hks dvars hd lev
+
+/-- total form of `C15_bddToMdd_held`: the call returns, and every held reference `s` (either sign)
+has an image with `flip(umap[|s|], s)` = the function `s` denoted before the call, on the bits
+encoded by any valid integer assignment -/
+theorem C15_bddToMdd_held_total (ext : Nat → Nat) (mb : Mgr) (h : ReorderInv ext mb)
+    (hks : KeysShaped mb) (hs : mb.sched = []) (dvars : List MVar) (hd : DvarsFull mb.tbl dvars) :
+    ∃ out mb', bddToMdd dvars none mb = (.ok out, mb') ∧ MInv out.mdd ∧ Inv mb' ∧
+      ∀ (s : Int), 0 < ext s.natAbs →
+        ∃ r, out.umap.lookup s.natAbs = some r ∧ out.mdd.tbl.Mem r ∧
+          ∀ α, MValid out.mdd.tbl α →
+            denM out.mdd.tbl (flip r s) α = denN mb.tbl s (bitsOfInts dvars α) := by
+  obtain ⟨out, mb', hr, B⟩ := bddToMdd_total ext mb h hks hs dvars hd
+  exact ⟨out, mb', hr, B.mdd, B.bdd, fun s hsx =>
+    C15_bddToMdd_held ext mb h dvars hd.toDvarsOK none out mb' hr s hsx⟩
+
+/-- the hypotheses of the totality theorems are satisfiable by a non-trivial manager (the example
+manager of C06/C07, held node 4 = `a ∧ b`, one integer variable over the bits `b`, `a` in an
+order that forces a reordering): hence `bdd_to_mdd` provably returns on it, with a correct image of
+the held node -/
+example : ∃ out mb', bddToMdd [⟨"x", 0, 4, ["b", "a"]⟩] none exM = (.ok out, mb') ∧
+    ∃ r, out.umap.lookup 4 = some r ∧ ∀ α, MValid out.mdd.tbl α →
+      denM out.mdd.tbl r α = denN exM.tbl 4 (bitsOfInts [⟨"x", 0, 4, ["b", "a"]⟩] α) := by
+  have hk : exM.tbl.vars.keys = ["a", "b"] := by decide
+  have hd : DvarsFull exM.tbl [⟨"x", 0, 4, ["b", "a"]⟩] := by
+    refine ⟨⟨List.Perm.refl _, ?_⟩, by decide, by decide, by decide⟩
+    rw [hk]; exact List.Perm.swap _ _ _
+  have hks : KeysShaped exM := by
+    intro k u hku
+    have hmem : k ∈ exM.pred.keys := by
+      rw [Std.TreeMap.mem_keys, Std.TreeMap.mem_iff_isSome_getElem?, hku]; rfl
+    have hkeys : exM.pred.keys = [[0, -1, 1], [0, -1, 3], [1, -1, 1]] := by decide
+    rw [hkeys] at hmem
+    simp only [List.mem_cons, List.not_mem_nil, or_false] at hmem
+    rcases hmem with rfl | rfl | rfl
+    · exact ⟨⟨0, -1, 1⟩, rfl⟩
+    · exact ⟨⟨0, -1, 3⟩, rfl⟩
+    · exact ⟨⟨1, -1, 1⟩, rfl⟩
+  obtain ⟨out, mb', hr, _, _, hall⟩ :=
+    C15_bddToMdd_held_total exExt exM exM_reorderInv hks (by decide) _ hd
+  obtain ⟨r, h1, _, h3⟩ := hall 4 (by decide)
+  exact ⟨out, mb', hr, r, h1, fun α hα => by have := h3 α hα; simpa [flip] using this⟩
 
 /-- the hypotheses of the conversion theorems are satisfiable by a non-trivial manager: the
 example manager of C06/C07 (variables `a`, `b`; nodes 2 = `a`, 3 = `b`, 4 = `a ∧ b` held) with
